@@ -2,7 +2,7 @@
 from . import gen, run
 from .props import cnt, net_props, worlds, thorough, ctx_spec, chunks
 
-NEEDS_BINS = {"C16", "C17", "C19"}
+NEEDS_BINS = {"C13", "C14", "C16", "C17", "C19"}
 
 
 def add_shell(chk, kind, fields, tag="", meta=None):
@@ -115,6 +115,20 @@ def gen_C20_ext(chk):
         add_shell(chk, "SLICE", [str(k), "A:" + gen.hx(net), ",".join(gen.hx(gen.render(f)) for f in fs),
                                  str(32 if thorough(chk) else 12), ",".join("%s=%s" % (gen.hx(l), sp) for l, sp in ctx)],
                   tag="slice-ext", meta={"net": net, "netname": nm, "k": k, "fs": fs})
+        # a domain that is, colour by colour, empty or everything; the attractor / steady-state pattern
+        # inside its scope and again outside (in one formula and as the next formula of the batch)
+        atp = ("H", "Bind", "x", None, ("U", "AG", ("U", "EF", V("x"))))
+        stp = ("H", "Bind", "x", None, ("U", "AX", V("x")))
+        pz = gen.T("P", props[0])
+        fs2 = []
+        for pt in (atp, stp):
+            inner = ("H", "Exists", "y", "d", ("H", "Jump", "y", None, rng.choice([pt, ("B", "And", pz, pt)])))
+            fs2 += [inner, pt, ("B", "Or", inner, ("B", "And", pt, pz))]
+        ctx2 = [("d", "k%d.1.2" % rng.randint(1, 10 ** 6))]
+        if len(props) * 3 <= 10:
+            add_shell(chk, "SLICE", ["2", "A:" + gen.hx(net), ",".join(gen.hx(gen.render(f)) for f in fs2),
+                                     str(32 if thorough(chk) else 12), ",".join("%s=%s" % (gen.hx(l), sp) for l, sp in ctx2)],
+                      tag="slice-ext-colours", meta={"net": net, "netname": nm, "k": 2, "fs": fs2})
 
 
 def judge_C20(chk):
@@ -194,6 +208,25 @@ def gen_C16(chk):
                       meta={"net": net, "labels": labels})
 
 
+def gen_cli_single_operator_files(chk):
+    """formula files in which one operator is the only one that needs the self-loop states, and files
+    that mix tall formulae without state variables with short ones with nested variables"""
+    rng = chk.rng
+    ws = worlds(chk, quick_names=["N05", "N06", "N09", "N16"], n_random=cnt(chk, 1, 3))
+    for nm, net in ws:
+        props = net_props(net)
+        a_, b_ = props[0], props[-1]
+        for fs in (["~%s EW (%s & %s)" % (b_, a_, b_)], ["%s AW %s" % (a_, b_)], ["AF %s" % a_], ["EG ~%s" % b_],
+                   ["%s AU %s" % (a_, b_)], ["%s EW %s" % (a_, b_), "EF %s" % b_]):
+            add_shell(chk, "CLI", ["aeon", gen.hx(net), gen.hx("\n".join(fs) + "\n"), "summary", "-"], tag="cli-single-op",
+                      meta={"net": net, "formulas": fs})
+        tall = "AG (EF (AX (EX (AF (%s & AF %s)))))" % (a_, b_)
+        deep = "!{x}: 3{y}: (@{x}: ~{y} & AX {x}) & (@{y}: AX {y})"
+        for fs in ([tall, deep], [deep, tall], ["AG (EF (AX (EX (%s & AF %s))))" % (a_, b_), deep]):
+            add_shell(chk, "CLI", ["aeon", gen.hx(net), gen.hx("\n".join(fs) + "\n"), "summary", "-"], tag="cli-mixed-heights",
+                      meta={"net": net, "formulas": fs})
+
+
 def gen_C16_cli(chk):
     """archives written by the command-line tool: one entry per line of the formula file, also when a
     formula is repeated or repeated up to the names of its variables"""
@@ -264,6 +297,9 @@ def gen_C17(chk):
             text = formula_file(rng, fs)
             add_shell(chk, "CLI", ["aeon", gen.hx(net), gen.hx(text), opts[j % 4], "-"], tag="cli-aeon",
                       meta={"net": net, "formulas": fs})
+        # a context archive whose sets are not confined to the model's valid colours
+        add_shell(chk, "CLI", ["aeon", gen.hx(net), gen.hx("%p%\n%p% | " + props[0] + "\n~%p%\n"), "summary",
+                               gen.hx("p") + "=R%d.1.2" % rng.randint(1, 10 ** 6)], tag="cli-raw-ctx", meta={"net": net})
         # files whose formulae need the self-loop states only through AF / EG / AU / EW
         a_, b_ = props[0], props[-1]
         fs = ["AF (%s & %s)" % (a_, b_), "EG ~%s" % a_, "%s AU %s" % (a_, b_), "%s EW %s" % (b_, a_)]
@@ -375,7 +411,9 @@ def gen_C19(chk):
              "x -?? a\nx -?? b\ny -?? b\n$a: f(x, true)\n$b: f(x, y)\n", "x -?? a\n$a: f(x, true) ^ f(true, x)\n",
              "x -?? a\n$a: f(x, x) <=> f(x, false)\n",
              "b -> a\nb -> c\n$c: f_a(b)\n", "b -?? a\nc -?? a\nb -?? d\nc -?? d\n$d: f_a(b, c)\n",
-             "b -> a\nb -> c\n$c: a_(b) | f_a_(b)\n"]
+             "b -> a\nb -> c\n$c: a_(b) | f_a_(b)\n",
+             "b -?? a\n$a: (f(p) <=> f(b)) & (p <=> b)\n", "b -?? a\nb -?? c\n$a: f(p)\n$c: f(b) & p\n",
+             "b -?? a\n$a: f(p, b) ^ f(b, p) ^ p\n"]
     for i in range(cnt(chk, 40, 160)):
         nets.append(random_conv_network(rng))
     for i in range(cnt(chk, 20, 60)):
